@@ -26,20 +26,20 @@ struct Net;
 #define C15_NET(N)                                                                                     \
     template <>                                                                                        \
     struct Net<0, N> {                                                                                 \
-        template <class T, class CS>                                                                   \
-        static void run(T* a, CS cs) { sn::best::sort##N(a, cs); }                                     \
+        template <class It, class CS>                                                                  \
+        static void run(It a, CS cs) { sn::best::sort##N(a, cs); }                                     \
     };                                                                                                 \
     template <>                                                                                        \
     struct Net<1, N> {                                                                                 \
-        template <class T, class CS>                                                                   \
-        static void run(T* a, CS cs) { sn::bose_nelson::sort##N(a, cs); }                              \
+        template <class It, class CS>                                                                  \
+        static void run(It a, CS cs) { sn::bose_nelson::sort##N(a, cs); }                              \
     };                                                                                                 \
     template <>                                                                                        \
     struct Net<2, N> {                                                                                 \
-        template <class T, class CS, size_t... I>                                                      \
-        static void run_(T* a, CS cs, std::index_sequence<I...>) { sn::bose_nelson_parameter::sort##N(a[I]..., cs); } \
-        template <class T, class CS>                                                                   \
-        static void run(T* a, CS cs) { run_(a, cs, std::make_index_sequence<N>()); }                   \
+        template <class It, class CS, size_t... I>                                                     \
+        static void run_(It a, CS cs, std::index_sequence<I...>) { sn::bose_nelson_parameter::sort##N(a[I]..., cs); } \
+        template <class It, class CS>                                                                  \
+        static void run(It a, CS cs) { run_(a, cs, std::make_index_sequence<N>()); }                   \
     };
 C15_NET(2) C15_NET(3) C15_NET(4) C15_NET(5) C15_NET(6) C15_NET(7) C15_NET(8) C15_NET(9) C15_NET(10)
 C15_NET(11) C15_NET(12) C15_NET(13) C15_NET(14) C15_NET(15) C15_NET(16)
@@ -65,8 +65,9 @@ C15_NET(11) C15_NET(12) C15_NET(13) C15_NET(14) C15_NET(15) C15_NET(16)
     default: abort();                                                                                  \
     }
 
-template <int FAM, class T, class CS>
-inline void direct(int n, T* a, CS cs) {
+//! `a` is any random-access iterator (the existing targets pass T*)
+template <int FAM, class It, class CS>
+inline void direct(int n, It a, CS cs) {
     C15_SWITCH(run(a, cs))
 }
 //! the family's documented default compare-exchange: CS_IfSwap<std::less<T>>.  (Calling sortN(a) without the second
@@ -81,24 +82,24 @@ template <int FAM>
 struct Dispatch;
 template <>
 struct Dispatch<0> {
-    template <class T, class C>
-    static void run(T* b, T* e, C c) { sn::best::sort(b, e, c); }
-    template <class T>
-    static void run_default(T* b, T* e) { sn::best::sort(b, e); }
+    template <class It, class C>
+    static void run(It b, It e, C c) { sn::best::sort(b, e, c); }
+    template <class It>
+    static void run_default(It b, It e) { sn::best::sort(b, e); }
 };
 template <>
 struct Dispatch<1> {
-    template <class T, class C>
-    static void run(T* b, T* e, C c) { sn::bose_nelson::sort(b, e, c); }
-    template <class T>
-    static void run_default(T* b, T* e) { sn::bose_nelson::sort(b, e); }
+    template <class It, class C>
+    static void run(It b, It e, C c) { sn::bose_nelson::sort(b, e, c); }
+    template <class It>
+    static void run_default(It b, It e) { sn::bose_nelson::sort(b, e); }
 };
 template <>
 struct Dispatch<2> {
-    template <class T, class C>
-    static void run(T* b, T* e, C c) { sn::bose_nelson_parameter::sort(b, e, c); }
-    template <class T>
-    static void run_default(T* b, T* e) { sn::bose_nelson_parameter::sort(b, e); }
+    template <class It, class C>
+    static void run(It b, It e, C c) { sn::bose_nelson_parameter::sort(b, e, c); }
+    template <class It>
+    static void run_default(It b, It e) { sn::bose_nelson_parameter::sort(b, e); }
 };
 
 } // namespace c15
